@@ -114,6 +114,38 @@ Lemma adjust_dir_kind_s d t : t_kind (adjust_dir d t) = t_kind t.
 Proof. unfold adjust_dir. destruct d, (t_dir t); reflexivity. Qed.
 Lemma on_found_kind_s d t : t_kind (on_found d t) = t_kind t.
 Proof. unfold on_found. rewrite adjust_dir_kind_s. destruct d; reflexivity. Qed.
+Lemma on_answered_pr w od t : pr (on_answered w od t) = pr t.
+Proof. destruct od; reflexivity. Qed.
+Lemma attach_track_pr t : pr (attach_track t) = pr t. Proof. reflexivity. Qed.
+Lemma detach_track_pr t : pr (detach_track t) = pr t.
+Proof. unfold detach_track. destruct (t_dir t); reflexivity. Qed.
+
+Lemma cur_dirs_loop_pr w secs : forall l,
+  map pr (strip (cur_dirs_loop w secs l)) = map pr (strip l).
+Proof.
+  induction secs as [|[[k m] od] rest IH]; intro l; [reflexivity|].
+  cbn [cur_dirs_loop]. destruct (String.eqb m ""); [reflexivity|].
+  assert (Hf : map pr (strip match find_upd (by_mid m) (on_answered w od) l with
+                             | Some (_, l') => cur_dirs_loop w rest l'
+                             | None => l
+                             end) = map pr (strip l)).
+  { destruct (find_upd (by_mid m) (on_answered w od) l) as [[t l']|] eqn:F; [|reflexivity].
+    rewrite IH. apply find_upd_some in F. destruct F as (l1 & l2 & -> & -> & _).
+    rewrite !strip_app, !map_app. cbn [strip map fst]. rewrite on_answered_pr. reflexivity. }
+  destruct k; try exact Hf. apply IH.
+Qed.
+
+Lemma set_cur_dirs_pr w secs l : map pr (set_cur_dirs w secs l) = map pr l.
+Proof. unfold set_cur_dirs. rewrite cur_dirs_loop_pr, strip_fresh. reflexivity. Qed.
+
+Lemma reuse_for_track_pr k l l' : reuse_for_track k l = Some l' -> map pr l' = map pr l.
+Proof.
+  revert l'. induction l as [|t rest IH]; intros l' H; [discriminate|]. cbn [reuse_for_track] in H.
+  destruct (send_allowed k t).
+  - injection H as <-. reflexivity.
+  - destruct (reuse_for_track k rest) as [r|]; [|discriminate]. injection H as <-.
+    cbn [map]. rewrite (IH _ eq_refl). reflexivity.
+Qed.
 
 Lemma alloc_mids_keeps l : forall g, keeps l (snd (alloc_mids g l)).
 Proof.
@@ -150,7 +182,7 @@ Proof.
         apply find_upd_some in S. destruct S as (l1 & l2 & -> & -> & Hp & _).
         apply sat_pred_unset in Hp.
         eapply keeps_trans; [|apply IH]. rewrite !strip_app. cbn [strip map fst].
-        apply keeps_replace. split; [cbn; apply adjust_dir_kind_s|intro H; contradiction].
+        apply keeps_replace. split; [cbn; rewrite adjust_dir_kind_s; reflexivity|intro H; contradiction].
       + eapply keeps_trans; [|apply IH]. rewrite strip_app. apply keeps_app_r. }
   destruct (r_kind r); cbn [media_kind]; try apply IH.
   - destruct (r_dir r) as [d|]; [apply Hmedia|apply IH].
@@ -181,10 +213,10 @@ Qed.
 Lemma create_answer_keeps s : keeps (trs s) (trs (fst (create_answer s))).
 Proof.
   apply keeps_of_pr. unfold create_answer. destruct (remote_desc s) as [d|]; [|reflexivity].
-  destruct (sig s); try reflexivity.
   pose proof (gen_matched_pr s d false) as H.
-  destruct (gen_matched s d false) as [l [[[secs add] g]|e|]]; cbn [fst] in *; try exact H.
-  destruct (populate _ g secs) as [p|e|]; exact H.
+  destruct (sig s); try reflexivity;
+    (destruct (gen_matched s d false) as [l [[[secs add] g]|e|]]; cbn [fst] in *; try exact H;
+     destruct (populate _ g secs) as [p|e|]; exact H).
 Qed.
 
 Lemma finish_senders_keeps s : keeps (trs s) (trs (fst (finish_senders s))).
@@ -193,11 +225,50 @@ Proof.
   destruct (start_senders (has_codecs s) (trs s)) as [l e]. exact H.
 Qed.
 
+Lemma set_local_keeps s ty : keeps (trs s) (trs (fst (set_local s ty))).
+Proof.
+  unfold set_local. destruct (local_next (sig s) ty) as [g|]; [|apply keeps_refl].
+  destruct ty; try apply keeps_refl.
+  set (s1 := set_sig_remote s g (pend_remote s) None).
+  destruct (remote_desc s1); [|apply keeps_refl].
+  set (s2 := set_trs s1 _).
+  eapply keeps_trans; [|apply finish_senders_keeps].
+  apply keeps_of_pr. unfold s2. cbn [trs set_trs]. apply set_cur_dirs_pr.
+Qed.
+
+Lemma set_remote_keeps s ty d : keeps (trs s) (trs (fst (set_remote s ty d))).
+Proof.
+  unfold set_remote. destruct (remote_next (sig s) ty) as [g|]; [|apply keeps_refl].
+  assert (Hloop :
+    let s1 := set_sig_remote s g (cur_remote s) (Some d) in
+    let s2 := set_engine s1 (engine_update (r_secs d) (neg_audio s1) (neg_video s1)) in
+    keeps (trs s) (trs (fst (let '(l, e) := srd_loop (r_secs d) (fresh_local (trs s2)) in
+              (set_trs s2 (strip l), match e with Some c => Err c | None => Ok tt end))))).
+  { intros s1 s2.
+    pose proof (srd_loop_keeps (r_secs d) (fresh_local (trs s2))) as H.
+    destruct (srd_loop (r_secs d) (fresh_local (trs s2))) as [l e]. cbn [fst] in *.
+    rewrite strip_fresh in H. exact H. }
+  destruct ty; try exact Hloop.
+  set (s1 := set_sig_remote s g (Some d) None).
+  set (s2 := set_engine s1 (engine_update (r_secs d) (neg_audio s1) (neg_video s1))).
+  set (s3 := set_trs s2 _).
+  eapply keeps_trans; [|apply finish_senders_keeps].
+  apply keeps_of_pr. unfold s3. cbn [trs set_trs]. apply set_cur_dirs_pr.
+Qed.
+
 Lemma step_keeps s o : keeps (trs s) (trs (fst (step s o))).
 Proof.
   destruct o; cbn [step].
   - unfold add_transceiver. destruct d; try destruct (has_codecs s k); cbn [fst trs set_trs];
       try apply keeps_refl; apply keeps_app_r.
+  - unfold add_track. destruct (reuse_for_track k (trs s)) as [l|] eqn:E; cbn [fst trs set_trs].
+    + apply keeps_of_pr. eapply reuse_for_track_pr. exact E.
+    + apply keeps_app_r.
+  - unfold remove_track. destruct (nth_error (trs s) i) as [t|]; [|apply keeps_refl].
+    destruct (t_sender t); [|apply keeps_refl]. cbn [fst trs set_trs].
+    destruct (upd_nth i detach_track (trs s)) as [l|] eqn:E; [|apply keeps_refl].
+    eapply upd_nth_keeps; [|exact E]. intro t0. unfold same_tr.
+    pose proof (detach_track_pr t0) as Hp. unfold pr in Hp. injection Hp as Hm Hk. split; auto.
   - unfold stop_transceiver. destruct (upd_nth i stop_tr (trs s)) as [l|] eqn:E; cbn [fst]; [|apply keeps_refl].
     cbn [trs set_trs]. eapply upd_nth_keeps; [|exact E]. intro t. split; reflexivity.
   - cbn. apply keeps_refl.
@@ -205,20 +276,10 @@ Proof.
     pose proof (create_offer_keeps s) as H. rewrite E in H. exact H.
   - destruct (create_answer s) as [s' r] eqn:E. cbn [fst].
     pose proof (create_answer_keeps s) as H. rewrite E in H. exact H.
-  - destruct (set_local s ty) as [s' r] eqn:E. cbn [fst]. unfold set_local in E. destruct ty.
-    + destruct (sig s); injection E as <- _; apply keeps_refl.
-    + destruct (sig s); try (injection E as <- _; apply keeps_refl).
-      pose proof (finish_senders_keeps (set_sig_remote s Stable (pend_remote s) None)) as H.
-      rewrite E in H. exact H.
-  - destruct (set_remote s ty d) as [s' r] eqn:E. cbn [fst]. unfold set_remote in E. destruct ty.
-    + destruct (sig s); try (injection E as <- _; apply keeps_refl).
-      set (s2 := set_engine _ _) in E.
-      pose proof (srd_loop_keeps (r_secs d) (fresh_local (trs s2))) as H.
-      destruct (srd_loop (r_secs d) (fresh_local (trs s2))) as [l e]. injection E as <- _.
-      rewrite strip_fresh in H. exact H.
-    + destruct (sig s); try (injection E as <- _; apply keeps_refl).
-      set (s2 := set_engine _ _) in E.
-      pose proof (finish_senders_keeps s2) as H. rewrite E in H. exact H.
+  - destruct (set_local s ty) as [s' r] eqn:E. cbn [fst].
+    pose proof (set_local_keeps s ty) as H. rewrite E in H. exact H.
+  - destruct (set_remote s ty d) as [s' r] eqn:E. cbn [fst].
+    pose proof (set_remote_keeps s ty d) as H. rewrite E in H. exact H.
 Qed.
 
 Lemma run_from_keeps ops : forall s, keeps (trs s) (trs (run_from s ops)).
@@ -311,19 +372,19 @@ Lemma answer_same_positions_lemma s s' d rd :
   sec_mids d = map Some (map r_mid (r_secs rd)).
 Proof.
   intros H R Hus Hcod. unfold create_answer in H. rewrite R in H.
-  destruct (sig s); try discriminate.
-  destruct (gen_matched s rd false) as [l [[[secs add] g]|e|]] eqn:E; try discriminate.
-  destruct (populate (has_codecs (set_trs s l)) g secs) as [p|e|] eqn:P; try discriminate.
-  injection H as _ <-. rewrite (sec_mids_populate _ _ _ _ Hcod P). f_equal.
-  unfold gen_matched in E.
-  destruct (match_loop (r_secs rd) (fresh_local (trs s)) [] false) as [l0 [[acc app]|e|]] eqn:M; try discriminate.
-  injection E as _ <- _ _. exact (match_loop_usable_ids _ _ _ _ _ _ _ Hus M).
+  destruct (sig s); try discriminate;
+    (destruct (gen_matched s rd false) as [l [[[secs add] g]|e|]] eqn:E; try discriminate;
+     destruct (populate (has_codecs (set_trs s l)) g secs) as [p|e|] eqn:P; try discriminate;
+     injection H as _ <-; rewrite (sec_mids_populate _ _ _ _ Hcod P); f_equal;
+     unfold gen_matched in E;
+     destruct (match_loop (r_secs rd) (fresh_local (trs s)) [] false) as [l0 [[acc app]|e|]] eqn:M; try discriminate;
+     injection E as _ <- _ _; exact (match_loop_usable_ids _ _ _ _ _ _ _ Hus M)).
 Qed.
 
 (* ---------- a whole round: offers after an exchange extend its descriptions ---------- *)
 Definition is_local (o : op) : Prop :=
   match o with
-  | AddTransceiver _ _ | StopTransceiver _ | CreateDataChannel | CreateOffer => True
+  | AddTransceiver _ _ | AddTrack _ | RemoveTrack _ | StopTransceiver _ | CreateDataChannel | CreateOffer => True
   | _ => False
   end.
 
@@ -333,6 +394,9 @@ Lemma step_local_remote s o :
 Proof.
   destruct o; cbn [is_local step]; intro H; try contradiction.
   - unfold add_transceiver. destruct d; try destruct (has_codecs s k); split; reflexivity.
+  - unfold add_track. destruct (reuse_for_track k (trs s)); split; reflexivity.
+  - unfold remove_track. destruct (nth_error (trs s) i) as [t|]; [|split; reflexivity].
+    destruct (t_sender t); split; reflexivity.
   - unfold stop_transceiver. destruct (upd_nth i stop_tr (trs s)); split; reflexivity.
   - split; reflexivity.
   - destruct (create_offer s) as [s' r] eqn:E. cbn [fst].
